@@ -586,7 +586,14 @@ def directed_patcher(ck, batch, failing):
                 continue
             try:
                 prod = t._patcher(structure, dict(mp))
-            except Exception:
+            except Exception as e:
+                from chython.periodictable import AnyElement
+                documented = isinstance(e, ValueError) and any(isinstance(ra, AnyElement) and not mp.get(k) for k, ra in t._replacement.atoms())
+                real_match = all(k in mp for k in getattr(t, '_pattern', ()))   # every pattern atom has an image in the structure
+                if real_match and not documented:
+                    # a real match of the pattern (no ring fixing in these templates): nothing may refuse it
+                    ck.counterexample(f'patcher-raises:{describe}:{sorted(mp.items())}', f'_patcher raises {type(e).__name__} on a real match ({describe})',
+                                      {'structure': describe, 'mapping': mp}, f'{type(e).__name__}: {e}', 'a product', 'no exception expected')
                 continue
             n += 1
             try:
@@ -637,6 +644,12 @@ def corr_overlap(ck):
                                   replay_py=None)
         except Exception as e:
             res = exn(e)
+            # non-empty molecules with unique numbers: nothing in fix_mapping_overlap may refuse them
+            ck.counterexample(f'overlap-raises:{ins}', f'fix_mapping_overlap raises {type(e).__name__} on valid structures', {'structures': ins},
+                              f'{type(e).__name__}: {e}', 'the structures with colliding numbers renumbered', 'no exception expected',
+                              replay_py=("from chython.containers import MoleculeContainer\nfrom chython.reactor.reactor import fix_mapping_overlap\nms = []\n"
+                                         f"for nums in {ins!r}:\n    m = MoleculeContainer()\n    [m.add_atom('C', n) for n in nums]\n    ms.append(m)\n"
+                                         "print([list(x) for x in fix_mapping_overlap(ms)])"))
         batch.add(f'overlap_res_eqb (fix_mapping_overlap {lst([zl(a) for a in ins])}) ({res})', {'input': ins, 'observed': res})
         ck.case(('overlap', tuple(map(tuple, ins))), nontrivial=len({x for a in ins for x in a}) < sum(map(len, ins)))
         ck.count('overlap:' + ('collision' if len({x for a in ins for x in a}) < sum(map(len, ins)) else 'disjoint'))
@@ -778,7 +791,13 @@ def search_templates(ck):
             if not maps:
                 continue
             hits += 1
-            prods = list(t_raw(m))
+            try:
+                prods = list(t_raw(m))
+            except Exception as e:   # no ring fixing here: nothing in the call is allowed to refuse a real match
+                ck.counterexample(f'raises-raw:{tname}:{smi}', f'template application (fix_aromatic_rings=False) raises {type(e).__name__} on a real match',
+                                  {'smiles': smi, 'template': tname}, f'{type(e).__name__}: {e}', 'one product per match', 'no exception expected',
+                                  replay_py=f"from chython import smiles, smarts\nfrom chython.reactor import Transformer\nprint([str(x) for x in Transformer(smarts({pat!r}), smarts({rep!r}), fix_aromatic_rings=False)(smiles({smi!r}))])")
+                continue
             try:
                 prods_def = list(t_def(m))
             except Exception as e:
@@ -850,7 +869,13 @@ def search_identity(ck):
                         continue
                     if m is None or m.check_valence():
                         continue
-                    prods = list(itertools.islice(t(m), 4))
+                    try:
+                        prods = list(itertools.islice(t(m), 4))
+                    except Exception as e:
+                        if raw or 'Aromatic' not in type(e).__name__:
+                            ck.counterexample(f'identity-raises:{pat}>>{rep}:{raw}:{smi}', f'identity template raises {type(e).__name__}',
+                                              {'smiles': smi, 'pattern': pat, 'replacement': rep, 'fix_aromatic_rings': not raw}, f'{type(e).__name__}: {e}', 'the input', 'no exception expected')
+                        continue
                     if not prods:
                         continue
                     hits += 1
@@ -899,7 +924,15 @@ def search_reactor(ck):
             continue
         for rs in rsets:
             ms = [smiles(x) for x in rs]      # both numbered from 1: colliding numbers
-            out = list(rx(*ms))
+            rp_r = f"from chython import smiles\nfrom chython.reactor import reactions\nms=[smiles(x) for x in {rs!r}]\nprint(sorted(str(r) for r in reactions.{name}(*ms)), sorted(str(r) for r in reactions.{name}(*ms[::-1])))"
+            try:
+                out = list(rx(*ms))
+                swapped = sorted('.'.join(sorted(str(p) for p in r.products)) for r in rx(*reversed([smiles(x) for x in rs])))
+                ren = sorted('.'.join(sorted(str(p) for p in r.products)) for r in rx(*[corpus.renumber(smiles(x), rng) for x in rs]))
+            except Exception as e:
+                ck.counterexample(f'reactor-raises:{name}:{rs}', f'built-in reaction raises {type(e).__name__} on valid reactants (as given, reversed or renumbered)',
+                                  {'reaction': name, 'reactants': rs}, f'{type(e).__name__}: {e}', 'reactions', 'no exception expected', replay_py=rp_r)
+                continue
             ck.count(f'search:reactor:{name}', len(out))
             base = sorted('.'.join(sorted(str(p) for p in r.products)) for r in out)
             for r in out:
@@ -915,8 +948,6 @@ def search_reactor(ck):
                                       inv, 'valence-valid', 'check_valence',
                                       replay_py=f"from chython import smiles\nfrom chython.reactor import reactions\nprint([str(r) for r in reactions.{name}(*[smiles(x) for x in {rs!r}])])")
             # reactant order and numbering
-            swapped = sorted('.'.join(sorted(str(p) for p in r.products)) for r in rx(*reversed([smiles(x) for x in rs])))
-            ren = sorted('.'.join(sorted(str(p) for p in r.products)) for r in rx(*[corpus.renumber(smiles(x), rng) for x in rs]))
             if set(swapped) != set(base):
                 ck.counterexample(f'reactor-order:{name}:{rs}', 'product set depends on the order of the reactants', {'reaction': name, 'reactants': rs}, swapped, base, 'reversed reactants',
                                   replay_py=f"from chython import smiles\nfrom chython.reactor import reactions\nms=[smiles(x) for x in {rs!r}]\nprint(sorted(str(r) for r in reactions.{name}(*ms)), sorted(str(r) for r in reactions.{name}(*ms[::-1])))")
